@@ -36,6 +36,9 @@ _UNLOOK = [(b.decode("utf-8", "surrogateescape"), a) for a, b in LOOKALIKE.items
 # Tiers.  A plan = one TLC run of MC_C01 (mode, bound, frames, handler lists); every "done" state
 # of that run is replayed on the real server in every run (world, cwd) of the tier.
 # ------------------------------------------------------------------------------------------------
+# prior world states (Handlers!PreStates): cache artefacts lying in the root before the request
+ZIP_PRES = ["none", "zsingle_fresh", "zsingle_stale", "zdb", "zpag", "zdumb_garbage", "zdumb_valid"]
+DIR_PRES = ["none", "dircache_garbage", "dircache_valid"]
 NESTED = ["/i.zip", "/p.zip"]       # members of z.zip named like archives (i.zip is one, p.zip is not): full list only
 TIERS = {
     "quick": dict(
@@ -46,6 +49,8 @@ TIERS = {
             dict(mode="tokens", n=2, frames=["GP", "GPI", "W", "GEM", "HH"], lists=["default"]),
             dict(mode="tokens", n=3, frames=["G", "H", "SP"], lists=["default"]),
             dict(mode="tokens", n=3, frames=["GS", "H"], lists=["full"], extra=NESTED),
+            dict(mode="tokens", n=2, frames=["GS", "H"], lists=["full"], pres=ZIP_PRES),
+            dict(mode="tokens", n=2, frames=["G", "H"], lists=["default"], pres=DIR_PRES),
         ],
         design_only=[],
     ),
@@ -62,6 +67,8 @@ TIERS = {
                  lists=["full"], extra=NESTED),
             dict(mode="tokens", n=4, frames=["G"], lists=["default"]),
             dict(mode="tokens", n=4, frames=["GS"], lists=["full"], extra=NESTED),
+            dict(mode="tokens", n=3, frames=["GS", "H"], lists=["full"], pres=ZIP_PRES + DIR_PRES[1:]),
+            dict(mode="tokens", n=3, frames=["G", "GP", "H"], lists=["default"], pres=DIR_PRES),
         ],
         design_only=[dict(mode="chars", n=5, frames=["G", "SP"], lists=["default"]),
                      dict(mode="chars", n=6, frames=["H"], lists=["default"])],
@@ -77,6 +84,7 @@ CONSTANTS
   Frames = {%(frames)s}
   Lists = {%(lists)s}
   ExtraTokens = {%(extra)s}
+  Pres = {%(pres)s}
 INVARIANT DesignHolds
 CHECK_DEADLOCK FALSE
 """
@@ -279,6 +287,63 @@ def dirty(z):
             except OSError:
                 return True
     return False
+
+
+ZCACHE = ".cache.pygopherd.zip3.z.zip"
+GARBAGE = b"\x13\x57\x9a\xce" + b"\0" * 60 + b"not an index\n"
+
+
+def plant(z, w, pre):
+    """gamma for Handlers!PreStates: put cache artefacts into the root (same bytes and times in both
+    worlds).  *_valid states are produced by the server itself in an unobserved priming request."""
+    if pre == "none":
+        return
+    root = z["root"]
+    fresh, stale = T_IN + 50, T_IN - 50           # the archive's mtime is T_IN
+
+    def put(rel, data, t):
+        p = os.path.join(root, rel)
+        with open(p, "wb") as fp:
+            fp.write(data)
+        os.utime(p, (t, t))
+
+    if pre == "zsingle_fresh":
+        put(ZCACHE, GARBAGE, fresh)
+    elif pre == "zsingle_stale":
+        put(ZCACHE, GARBAGE, stale)
+    elif pre == "zdb":
+        put(ZCACHE, GARBAGE, fresh)
+        put(ZCACHE + ".db", GARBAGE, fresh)
+    elif pre == "zpag":
+        put(ZCACHE, b"", fresh)
+        put(ZCACHE + ".pag", GARBAGE, fresh)
+        put(ZCACHE + ".dir", GARBAGE, fresh)
+    elif pre == "zdumb_garbage":
+        put(ZCACHE, b"", fresh)
+        for e in (".dat", ".dir", ".bak"):
+            put(ZCACHE + e, GARBAGE, fresh)
+    elif pre == "zdumb_valid":                      # "second request": the index the server wrote + the plain name
+        w.request(b"/z.zip\r\n")
+        for n in os.listdir(root):
+            if n.startswith(ZCACHE):
+                os.utime(os.path.join(root, n), (fresh, fresh))
+        if not os.path.exists(os.path.join(root, ZCACHE)):
+            put(ZCACHE, b"", fresh)
+    elif pre in ("dircache_garbage", "dircache_valid"):
+        import time
+        now = time.time()
+        if pre == "dircache_valid":
+            w.request(b"/\r\n")
+            w.request(b"/k\r\n")
+        for d in ("", "k"):
+            p = os.path.join(root, d, ".cache.pygopherd.dir")
+            if pre == "dircache_garbage":
+                put(os.path.join(d, ".cache.pygopherd.dir"), GARBAGE, now)
+            elif os.path.exists(p):
+                os.utime(p, (now, now))
+    else:
+        raise core.MachineryError("C01: unknown prior state %r" % pre)
+    stamp(z)
 
 
 def restore(z):
@@ -637,7 +702,7 @@ def _cwd_path(z, cwd):
 
 
 def _run_chunk(job):
-    """job = (runs, [(hl, frame, raw), ...]) -> per case a list of observations, one per run."""
+    """job = (runs, [(hl, frame, raw, pre), ...]) -> per case a list of observations, one per run."""
     import signal
     runs, cases = job
     out = [[] for _ in cases]
@@ -646,10 +711,13 @@ def _run_chunk(job):
             z = _W["zones"][which]
             cur_hl = None
             w = None
-            for i, (hl, frame, raw) in enumerate(cases):
+            for i, (hl, frame, raw, pre) in enumerate(cases):
                 if hl != cur_hl:
                     w = _world(which, hl)
                     cur_hl = hl
+                if pre != "none":
+                    os.chdir(_W["home"])
+                    plant(z, w, pre)
                 os.chdir(_cwd_path(z, cwd))
                 data = concretise(frame, raw, w.c01_waptop)
                 _arm(z)
@@ -663,7 +731,7 @@ def _run_chunk(job):
                 rawpaths = sorted(set(_Hook.rawpaths))[:16]
                 relpaths = _Hook.relpaths + _Hook.unrooted
                 # (creations that raise no audit event - the dbm index of a ZIP - only with the full list)
-                if _Hook.modified or (hl == "full" and dirty(z)):
+                if pre != "none" or _Hook.modified or (hl == "full" and dirty(z)):
                     os.chdir(_W["home"])
                     restore(z)
                 handler, lsel, excs = read_log(r.log)
@@ -684,7 +752,7 @@ def _run_chunk(job):
 
 
 def run_cases(cases, runs, base, procs=None):
-    """cases: list of (hl, frame, raw).  Returns list (same order) of run-event lists."""
+    """cases: list of (hl, frame, raw, pre).  Returns list (same order) of run-event lists."""
     global _BASE
     from harness import cachelib
     _BASE = base
@@ -736,7 +804,7 @@ def iter_done_states(path):
 
     def emit():
         if cur.get("phase") == '"done"':
-            st = {k: _json_value(cur[k]) for k in ("hl", "frame", "raw", "res")}
+            st = {k: _json_value(cur[k]) for k in ("hl", "frame", "raw", "pre", "res")}
             st["raw"] = "".join(st["raw"])
             st["res"]["d"] = "".join(st["res"]["d"])
             st["res"]["olsel"] = "".join(st["res"]["olsel"])
@@ -767,14 +835,16 @@ def iter_done_states(path):
 def model_check(plan, consts, dump=True):
     cfg = MC_CFG % dict(mode=plan["mode"], n=plan["n"], frames=", ".join('"%s"' % f for f in plan["frames"]),
                         lists=", ".join('"%s"' % x for x in plan["lists"]),
-                        extra=", ".join('"%s"' % x for x in plan.get("extra", [])))
+                        extra=", ".join('"%s"' % x for x in plan.get("extra", [])),
+                        pres=", ".join('"%s"' % x for x in plan.get("pres", ["none"])))
     return tlc.check_model("MC_C01", "MC_C01_run.cfg", extra_files={"MC_C01_run.cfg": cfg, "MC_C01_consts.tla": consts},
                            dump=dump, timeout=3000)
 
 
 def plan_name(p):
     return "%s<=%d %s %s%s" % (p["mode"], p["n"], "+".join(p["frames"]), "+".join(p["lists"]),
-                               (" +tokens " + " ".join(p["extra"])) if p.get("extra") else "")
+                               (" +tokens " + " ".join(p["extra"])) if p.get("extra") else "") + (
+        (" x prior states " + " ".join(p["pres"])) if p.get("pres") else "")
 
 
 # ------------------------------------------------------------------------------------------------
@@ -784,10 +854,10 @@ TRACE_FIELDS = ("ev", "world", "cwd", "outside", "inside", "resp", "digest", "h"
 
 
 def make_trace(case, pred, obs):
-    hl, frame, raw = case
+    hl, frame, raw, pre = case
     events = [{k: e[k] for k in TRACE_FIELDS} for e in obs] + [{"ev": "end"}]
-    return {"id": "%s|%s|%s" % (hl, frame, raw),
-            "init": {"hl": hl, "frame": frame, "raw": list(raw),
+    return {"id": "%s|%s|%s%s" % (hl, frame, raw, "" if pre == "none" else "|" + pre),
+            "init": {"hl": hl, "frame": frame, "raw": list(raw), "pre": pre,
                      "pred": {"h": pred["oh"], "resp": pred["oresp"], "lsel": list(pred["olsel"])}},
             "events": events}
 
@@ -819,9 +889,15 @@ def validate(traces, consts, threads):
     return out
 
 
-def case_dict(hl, frame, raw, res, obs=None, at=None):
+def _key(clause, case):
+    hl, frame, raw, pre = case
+    return "%s|%s|%s|%s%s" % (clause, hl, frame, raw, "" if pre == "none" else "|pre=" + pre)
+
+
+def case_dict(case, res, obs=None, at=None):
+    hl, frame, raw, pre = case
     """The abstract case as stored in replays and matched by known findings."""
-    c = {"hl": hl, "frame": frame, "raw": raw, "d": res.get("d"), "sel_class": res.get("cls"), "hostile": res.get("hostile"),
+    c = {"hl": hl, "frame": frame, "raw": raw, "pre": pre, "d": res.get("d"), "sel_class": res.get("cls"), "hostile": res.get("hostile"),
          "url_shaped": res.get("url"), "route": res.get("oroute"), "predicted_resp": res.get("oresp"),
          "predicted_handler": res.get("oh"), "predicted_lsel": res.get("olsel")}
     if "zip/" in (res.get("oroute") or ""):
@@ -838,7 +914,7 @@ BATCH = 100000
 def _batches(states, size):
     cases, preds = [], []
     for st in states:
-        cases.append((st["hl"], st["frame"], st["raw"]))
+        cases.append((st["hl"], st["frame"], st["raw"], st["pre"]))
         preds.append(st["res"])
         if len(cases) >= size:
             yield cases, preds
@@ -851,12 +927,12 @@ def _process(chk, tier, cases, preds, consts, base, procs, cov, nontrivial, samp
     """One batch: model-level verdicts, the real server in every run, TLC on the traces."""
     if model:
         # clauses the code's named deviations can falsify: TLC's verdict per case, relayed
-        for (hl, frame, raw), pr in zip(cases, preds):
+        for cs, pr in zip(cases, preds):
             if pr["mv"] != "ok":
                 cov["model_verdicts"][pr["mv"]] = cov["model_verdicts"].get(pr["mv"], 0) + 1
-                cd = case_dict(hl, frame, raw, pr)
+                cd = case_dict(cs, pr)
                 cd.update(resp=pr["oresp"], model="MC_C01")
-                chk.violation("model:%s|%s|%s|%s" % (pr["mv"], hl, frame, raw), pr["mv"], cd, {"predicted": pr})
+                chk.violation("model:" + _key(pr["mv"], cs), pr["mv"], cd, {"predicted": pr})
     # ---- 3. the real server, every case in every run ----
     obs = run_cases(cases, tier["runs"], base, procs=procs)
     cov["evaluations"] += sum(len(o) for o in obs)
@@ -870,9 +946,9 @@ def _process(chk, tier, cases, preds, consts, base, procs, cov, nontrivial, samp
     cov["trace_states"] += tv["states"]
     for rj in tv["rejected"]:
         i = rj["index"]
-        hl, frame, raw = cases[i]
-        chk.violation("%s|%s|%s|%s" % (rj["clause"], hl, frame, raw), rj["clause"],
-                      case_dict(hl, frame, raw, preds[i], obs[i], rj["at"] - 1),
+        hl, frame, raw, pre = cases[i]
+        chk.violation(_key(rj["clause"], cases[i]), rj["clause"],
+                      case_dict(cases[i], preds[i], obs[i], rj["at"] - 1),
                       {"request": concretise(frame, raw).decode("latin-1"), "runs": obs[i],
                        "rejected_at_event": rj["at"] - 1, "predicted": preds[i]})
     for d in tv["drift"]:
@@ -937,7 +1013,7 @@ def main(chk, replay=None):
                 preds = [{"d": c.get("d"), "cls": c.get("sel_class"), "url": c.get("url_shaped"), "oroute": c.get("route"),
                           "oresp": c.get("predicted_resp", "any"), "oh": c.get("predicted_handler", "none"),
                           "olsel": c.get("predicted_lsel", ""), "hostile": c.get("hostile"), "mv": "ok"}]
-                batches = [([(c["hl"], c["frame"], c["raw"])], preds)]
+                batches = [([(c["hl"], c["frame"], c["raw"], c.get("pre", "none"))], preds)]
                 res = None
             else:
                 res = model_check(p, consts)
@@ -1008,7 +1084,7 @@ def selftest():
     consts, _ = bind_constants()
     base = tlc.new_scratch("c01-self")
     try:
-        cases = [("default", "H", "/k"), ("default", "G", "/.."), ("default", "G", "URL:x://g")]
+        cases = [("default", "H", "/k", "none"), ("default", "G", "/..", "none"), ("default", "G", "URL:x://g", "none")]
         obs = run_cases(cases, TIERS["quick"]["runs"], base)
         preds = [{"oh": "UMNDirHandler", "oresp": "ok", "olsel": "/k"}, {"oh": "none", "oresp": "notfound", "olsel": "/.."},
                  {"oh": "HTMLURLHandler", "oresp": "ok", "olsel": "/URL:x://g"}]
